@@ -7,6 +7,8 @@ var Registry = map[string]func(Args) error{
 	"stream": Stream,
 	"mux": Mux,
 	"answer": Answer,
+	"smanswer": SMAnswer,
 	"find": Find,
 	"cer": CER,
+	"gate": Gate,
 }
